@@ -241,7 +241,6 @@ func cleanupEmptySegment(new, old *segment) error {
 	old.Lock()
 	old.replaced = true
 	old.Unlock()
-	err := old.Delete()
-	verifCrashPoint("compact.after_delete_old")
-	return err
+	defer verifCrashPoint("compact.after_delete_old")
+	return old.Delete()
 }
